@@ -703,3 +703,53 @@ _add_rt("C17", "fault sequences (SubscribeFaults.lean): the SOURCE raising from 
                "sequences of length <= 3 (correspondence + direct oracle with position-tagged error messages).",
         "AsyncMap defines no aclose / athrow (`__slots__ = (source_stream, map_value)`): closing is exercised only where a stream object offers it (none "
         "today); crashing events of the random streams remain outside the model comparison (direct oracle only).")
+# ---------------------------------------------------------------------------------------------------------------
+# State of the tree after the builder rounds co / co2 (C07, C10, C15): what the texts above do not say yet.
+# ---------------------------------------------------------------------------------------------------------------
+def _now(k, text=None, note=None, technique=None):
+    if text:
+        CHECKS[k]["text"] = CHECKS[k]["text"].rstrip() + " AS BUILT NOW: " + text
+    if note:
+        CHECKS[k]["note"] = CHECKS[k].get("note", "").rstrip() + " " + note
+    if technique:
+        CHECKS[k]["technique"] = technique
+
+
+_now("C07",
+     "model files Coerce.lean / CoerceExec.lean / PyNum.lean, specification Spec/Coerce.lean (Conforms). The route-equivalence headline is now "
+     "literal_variable_equiv_at / literal_variable_equiv_total_at (per TYPE: the two parsers of a custom scalar have to agree only at the custom-scalar "
+     "positions reachable from the type, CustomAgreeOn reg (Reach reg ty)), unconditional for types and schemas without custom scalars "
+     "(literal_variable_equiv_builtin, _no_custom, same_arguments_builtin, builtin_scalars_agree); customAgree_necessary and default_scalar_routes_differ "
+     "show the hypothesis cannot be dropped (finding A10). literal_variable_equiv_partial keeps 'natural JSON kind' explicit: "
+     "literal_variable_equiv_refuted_cross_kind / rejects_cross_kind_refuted are the machine-checked witnesses of finding A8 (lenient built-in parsers, "
+     "pinned by the suite). The history stream has a DETERMINISTIC derivation probe (det_probe: fixed clone / extend / camel-case / visibility plans on a "
+     "fixed schema with enums keyed by internal value, python-named input fields and defaults; fixed requests through every derived schema).",
+     "Only exercised, not modelled: the schema-derivation operations themselves (C14's model), resolver memoisation per (field definition, node). Declared "
+     "defaults are handed over as declared: RegOK.defaultsConform is a premise (established by SDL-built schemas); for code-first schemas only DeclaredOK "
+     "holds and the statement is refuted (defaults_filled_statement_refuted, known finding A11). Named probe default-shapes: A11, T14 (C14's finding at "
+     "the resolver), A12 (scalar implemented by a visitor: proposed fix C07-A12). A refused derivation of the deterministic probe is a reported failure.",
+     "Lean 4 proof (coercion soundness, per-type route equivalence, never-raises, before-resolver trace over response trees) + source-translated scalar "
+     "branches + resolver-kwargs correspondence incl. derived schemas")
+_now("C10",
+     "model file Response.lean (+ Generated/ResponseKeys.lean), specification Spec/ResponseSpec.lean (WellFormedK with the column key as a parameter), "
+     "Spec/NullSites.lean, Spec/TreeOk.lean. Headlines: response_wellformed_unless_syntax_error (section 7.1 AS WRITTEN for every request that parses), "
+     "response_wellformed_partial (syntax errors: well-formed up to the extracted key) and full_statement_refuted (finding X1: the only departure); "
+     "extensions_passed_through / no_extensions_invented (resolver-supplied extensions reach the response unchanged and nothing else produces the key), "
+     "only_lf_cr_end_lines (index_to_loc starts a line at LF, CR, CRLF only: the deterministic `linechars` class sends every other Unicode line "
+     "separator in front of an error position).",
+     "response_wellformed_pipeline (Props/C10_stages.lean) builds the stage record from the models: parse stage = C01's parseTextE on the text "
+     "(StagesOk.parse discharged), executed stage = the executor model (executed_stage_ok, executed_errors_are_resolver_errors), StagesTyped is a "
+     "theorem (stages_typed). Left as hypothesis LaterOk: the nodes of validation / variable-coercion / root-collection errors start at tokens of "
+     "the text (C06's model records the reporting rule, not the nodes; checked on the real errors of every text request, corr:stage-hypothesis:*) "
+     "and treeOkFields (user code: strict leaves and extensions).")
+_now("C15",
+     "model files Introspect.lean / IntrospectPrims.lean (+ Generated/Introspection.lean), specification Spec/Introspect.lean (decoder "
+     "schemaOfIntrospection, observable normal form norm). Exactness theorems next to introspect_lossless: interface_possible_types_exact / "
+     "interfaces_possible_types_dual / object_interfaces_exact / possible_types_null_elsewhere (possibleTypes of an interface = exactly the objects "
+     "that declare it, and null for every other kind), deprecation_reason_exact, directive_keys_june2018, default_string_reads_back_iff (a plain "
+     "String / ID default reads back IFF it has no control character other than TAB / LF / CR: the exact boundary of finding I1's residue). "
+     "Deterministic class eq-colliding: defaults and enum internal values 1 / True / 1.0 / 0 / False / 0.0 on one JSON-like scalar and one enum, "
+     "two schemas sharing the type objects, introspected in one process with a type-strict round-trip oracle.",
+     "Known findings I5 (VARIABLE_DEFINITION is not a member of __DirectiveLocation), I10, T14 (C14's finding seen through introspection: oracle "
+     "derived-defaults). introspect_lossless_end_to_end: Spec.decodeAll reads every entry (possibleTypes of interfaces included) and equals "
+     "(norm s, implementers s) within the TypeRef depth of the standard query; checked on the REAL answer on every run.")
